@@ -32,6 +32,7 @@ NOT_DECIDED = ["equality of restored bytes, names, types, link targets, permissi
 
 def run(ctx, rep):
     prog = ctx.prog
+    wiring_rule(ctx, rep, "C01")
     for r, tx in (("C01.a", "typed blob identity in the shared indexer"), ("C01.b", "chunker parameters validated for every variant"), ("C01.c", "filename escape tables are inverse"),
                   ("C01.d", "compress/decompress pairing"), ("C01.e", "offsets advance by the appended/processed length"), ("C01.f", "restore writes blobs at their recorded offsets"),
                   ("C01.g", "restore reuses existing destination bytes only where they are known to match")):
